@@ -90,6 +90,14 @@ pub fn test_prog(c: &ProgCase) -> Verdict {
             if top != 0 && kind == "CostExceeded" {
                 return Verdict::discard(); // more expensive than the exploration bound
             }
+            if top == 0 && kind == "CostExceeded" {
+                // "a budget of 0 means unlimited": it may only fail on cost where the largest budget fails too
+                if let Some(r) = run_fresh(&mut i, &c.p.prog, &c.p.env, c.flags, u64::MAX, None)
+                    && let Out::Ok { cost, .. } = &r.out
+                {
+                    return Verdict::fail(ctx(&format!("budget 0 (unlimited) fails with cost exceeded but budget u64::MAX succeeds with cost {cost}")));
+                }
+            }
             // fails at the top budget: must fail at every budget
             for b in &c.budgets {
                 let m = 1 + b % BIG_BUDGET;
@@ -109,14 +117,111 @@ pub fn test_prog(c: &ProgCase) -> Verdict {
     }
 }
 
+/// `(op (q . a1) (q . a2) ...)` for an operator call of the C10 generator, with value substitutions that make results
+/// collapse (zero / nil / one / minus one) so that early internal cost checks and the finally charged cost can disagree
+pub fn gen_opcall(t: &mut Tape) -> ProgCase {
+    use crate::dag::{Dag, N, Repr};
+    let heavy = t.chance(1, 15);
+    let mut c = crate::checks::c10::gen_case(t, heavy);
+    let nodes = crate::model::costmodel::arg_nodes(&c.args);
+    if !nodes.is_empty() && t.chance(2, 5) {
+        let k = nodes[t.below_usize(nodes.len())] as usize;
+        if matches!(c.args.n[k], N::A(..)) {
+            let v: &[u8] = match t.below(5) {
+                0 => &[],
+                1 => &[0],
+                2 => &[1],
+                3 => &[0xff],
+                _ => &[0, 0],
+            };
+            c.args.n[k] = N::A(v.to_vec(), if t.flip() { Repr::Nat } else { Repr::Heap });
+        }
+    }
+    let mut fl = crate::util::F_KECCAK | crate::util::F_SHA256_TREE | crate::util::F_SECP;
+    if c.new_model {
+        fl |= crate::util::F_NEW_COST;
+    }
+    if c.malachite {
+        fl |= crate::util::F_MALACHITE;
+    }
+    if t.chance(1, 4) {
+        fl |= 0x40; // LIMITS
+    }
+    if t.chance(1, 4) {
+        fl |= 0x20; // ENABLE_GC
+    }
+    let mut d = Dag::new();
+    let env = {
+        let mut e = Dag::new();
+        e.nil();
+        e
+    };
+    let code = crate::checks::c10::opcode(&c.op).unwrap_or(vec![0x7f]);
+    // copy the argument dag, quote every argument
+    let base = d.append(&c.args);
+    let off = base + 1 - c.args.n.len() as u32;
+    let one = d.atom(&[1]);
+    let mut items = Vec::new();
+    for n in &nodes {
+        items.push(d.pair(one, off + *n));
+    }
+    let list = d.list(&items);
+    let o = d.atom(&code);
+    d.pair(o, list);
+    let nb = 1 + t.below(4);
+    ProgCase { p: crate::r#gen::programs::GenProg { prog: d, env, info: Default::default() }, flags: fl, budgets: (0..nb).map(|_| t.u64()).collect() }
+}
+
+/// softfork invocations with very large declared costs (charged as declared on the unknown paths)
+pub fn gen_softfork_huge(t: &mut Tape) -> ProgCase {
+    use crate::dag::Dag;
+    let mut d = Dag::new();
+    let cost: u64 = match t.below(6) {
+        0 => (1u64 << 63) + t.below(1000) as u64,
+        1 => (1u64 << 63) - 1 - t.below(1000) as u64,
+        2 => u64::MAX - t.below(2000) as u64,
+        3 => (1u64 << 62) + t.word() as u64,
+        4 => (1u64 << 32) + t.word() as u64,
+        _ => t.u64(),
+    };
+    let one = d.atom(&[1]);
+    let cb = crate::r#gen::atoms::int_bytes(cost as i128);
+    let ca = d.atom(&cb);
+    let mut items = vec![d.pair(one, ca)];
+    // 1 argument, or 4 arguments with an unknown extension
+    if t.flip() {
+        let ext = d.atom(&crate::r#gen::atoms::int_bytes(2 + t.below(1000) as i128));
+        items.push(d.pair(one, ext));
+        let n1 = d.nil();
+        items.push(d.pair(one, n1));
+        let n2 = d.nil();
+        items.push(d.pair(one, n2));
+    }
+    let list = d.list(&items);
+    let o = d.atom(&[36]);
+    d.pair(o, list);
+    let env = {
+        let mut e = Dag::new();
+        e.nil();
+        e
+    };
+    let fl = if t.flip() { 0 } else { crate::util::F_NEW_COST };
+    ProgCase { p: crate::r#gen::programs::GenProg { prog: d, env, info: Default::default() }, flags: fl, budgets: vec![t.u64(), t.u64()] }
+}
+
 pub fn run(r: &mut Runner) {
     r.rule = "generated programs (typed grammar, all operators, guards with pre-computed costs, mutation layer) x flag sets; each is run at an unlimited (or 4*10^8) budget and then at C, C-1, C+1, u64::MAX, 0 and generated budgets below/above/fractions of C. \
+        Part opcalls: every operator called as (op (q . a1) ...) on the argument lists of the C10 generator (sizes up to hundreds of KB) with zero/nil/one/minus-one substitutions, so that internal early cost checks are compared with the finally charged cost at C and C-1. Part softfork-huge: softfork invocations with declared costs around 2^32, 2^62, 2^63 and 2^64 (budget 0 must behave like the largest budget). \
         Non-trivial = the program succeeds with cost >= 100 (C and C-1 are always exercised); distinct by case."
         .into();
     r.assumptions = vec!["programs that may loop (raw, mutated or recursive) use 4*10^8 as their top budget; those exceeding it are discarded (counted)".into()];
     let cfg = ProgCfg { mutate_pct: 25, raw_pct: 5, reprs: false, ..Default::default() };
     let n = r.n(15_000, 500_000);
     r.run_part("programs", n, 600, |t: &mut Tape| gen_prog_case(t, &cfg), test_prog);
+    let n = r.n(60_000, 1_500_000);
+    r.run_part("opcalls", n, 200, gen_opcall, test_prog);
+    let n = r.n(2_000, 50_000);
+    r.run_part("softfork-huge", n, 20, gen_softfork_huge, test_prog);
     r.require_label("guard entered", 100);
     r.require_label("exempt guard entered", 20);
 }
